@@ -1692,35 +1692,28 @@ class PyCdlib:
 
         self._needs_reshuffle = False
 
-    def _add_child_to_dr(self, child):
-        # type: (dr.DirectoryRecord) -> int
+    def _add_child_to_dr(self, child, continuation=False):
+        # type: (dr.DirectoryRecord, bool) -> int
         """
         An internal method to add a child to a directory record, expanding the
         space in the Volume Descriptor(s) if necessary.
 
         Parameters:
          child - The new child.
+         continuation - Whether this child is a further part of a very large
+                        file whose first part has just been added under the
+                        same name.
         Returns:
          The number of bytes to add for this directory record (this may be zero).
         """
         if child.parent is None:
             raise pycdlibexception.PyCdlibInternalError('Trying to add child without a parent')
 
-        try_long_entry = False
-        try:
-            ret = child.parent.add_child(child, self.logical_block_size)
-        except pycdlibexception.PyCdlibInvalidInput:
-            # dir_record.add_child() may throw a PyCdlibInvalidInput if it was
-            # given a duplicate child.  However, we allow duplicate children if
-            # and only the last child is the same; this represents a very large
-            # file.
-            if not child.is_dir():
-                try_long_entry = True
-            else:
-                raise
-
-        if try_long_entry:
-            ret = child.parent.add_child(child, self.logical_block_size, True)
+        # dir_record.add_child() throws a PyCdlibInvalidInput if it is given a
+        # duplicate child.  A duplicate is only allowed for the second and
+        # later parts of a very large file; any other duplicate name is an
+        # error of the caller.
+        ret = child.parent.add_child(child, self.logical_block_size, continuation)
 
         # The add_child() method returns True if the parent needs another extent
         # in order to fit the directory record for this child.
@@ -3131,6 +3124,7 @@ class PyCdlib:
         joliet_new_path = None
         rr_name = b''
         udf_new_path = None
+        continuation = False
         new_rec = None  # type: Optional[Union[dr.DirectoryRecord, udfmod.UDFFileEntry]]
         for key, value in kwargs.items():
             if key == 'iso_new_path':
@@ -3150,6 +3144,8 @@ class PyCdlib:
                 if value is not None:
                     num_new += 1
                     udf_new_path = utils.normpath(value)
+            elif key == 'continuation':
+                continuation = bool(value)
             else:
                 raise pycdlibexception.PyCdlibInvalidInput('Unknown keyword %s' % (key))
 
@@ -3186,7 +3182,7 @@ class PyCdlib:
                              vd.sequence_number(), rr, rr_name, xa, file_mode,
                              time.time())
 
-            num_bytes_to_add += self._add_child_to_dr(new_rec)
+            num_bytes_to_add += self._add_child_to_dr(new_rec, continuation)
             num_bytes_to_add += self._update_rr_ce_entry(new_rec)
         else:
             if self.udf_root is None:
@@ -3307,7 +3303,8 @@ class PyCdlib:
                                                                  fmode,
                                                                  eltorito_catalog,
                                                                  iso_new_path=iso_path,
-                                                                 rr_name=rr_name)
+                                                                 rr_name=rr_name,
+                                                                 continuation=offset > 0)
 
             if joliet_path:
                 # If this is a Joliet ISO, then we can re-use add_hard_link to do
@@ -3315,7 +3312,8 @@ class PyCdlib:
                 num_bytes_to_add += self._add_hard_link_to_inode(ino, thislen,
                                                                  fmode,
                                                                  eltorito_catalog,
-                                                                 joliet_new_path=joliet_path)
+                                                                 joliet_new_path=joliet_path,
+                                                                 continuation=offset > 0)
 
             # This goes after the hard link so we only track the new Inode if
             # everything above succeeds
